@@ -133,6 +133,12 @@ func init() {
 		Stubs:     []string{"network and authority: the Transport of the manager's http.Client literals is replaced by a simulated round tripper (auth endpoint that grants by rule on the POST body it receives; JWKS endpoint serving the current key set), which injects the faults", "TLS and certificate fingerprints (C41)"},
 		LevelText: "seeded search over request histories, authority behaviour, network faults and clock positions against the real manager; the oracle is a reference decision written from the statement: http = the authority delivered a 2xx to a POST carrying exactly the request's fields; jwt = the presented token (by the stated precedence) verifies, is within its validity and grants under a key set the server can hold at that instant",
 		LevelNote: "trusted: the reference decision and token builder (worlds/w4/zz_ref.go); tokens are Ed25519 only; verdicts within 1 ms of exp/nbf and verdicts that differ between the key sets downloaded during a call are not judged; whether a key download is due is not judged (the statement does not say), only that a request whose own download failed is rejected"})
+	reg(&propDef{ID: "C43", World: "w5", Chunk: 100, Level: "exploration", Quick: 6000, Thorough: 800000, QuickS: 60, ThorS: 1200, Claims: []string{"*"},
+		Rule:      "1-2 publishers (H.264, may leave and return) x 1-3 viewers (credentials valid / wrong / missing / publish-only / restricted by address; IPv4 and IPv6 addresses; cookies kept or secret in the query; Basic or Bearer credentials; pauses around the 30 s session inactivity limit) x 1-3 attackers replaying a viewer's secret (from another address, in a cookie, on the other path from the viewer's own address, behind a forged X-Forwarded-For), sending none / malformed / unknown secrets, a wrong CDN bearer, and the right CDN bearer when one is configured; variants mpegts and fmp4, always-remux on/off; x seeded schedule; non-trivial = at least one media playlist or segment served and one refused; distinct = distinct (variant, served, refused, sessions, event-log hash)",
+		Real:      []string{"internal/servers/hls: Server, httpServer.onRequest, session, muxer (findSession, getCDNSession, session cleanup), muxerInstance (instrumented); gohlslib muxer and gin router (real, uninstrumented)", "internal/core pathManager and path, internal/stream, internal/auth internal method (instrumented)", "internal/protocols/httpp handler chain (origin, server header, request filter, logger, write timeout, tracker)"},
+		Stubs:     []string{"TCP listener and TLS of internal/protocols/httpp.Server: replaced by a stub that hands each simulated request (method, URL, headers, remote address) to the same handler chain; handlerExitOnPanic left out so that a panic is recorded instead of ending the process", "publishers: actors calling pathManager.AddPublisher with identifiable H.264 units", "hook processes, pulled sources, forwarders: simulated, unused"},
+		LevelText: "seeded search over client histories against the real HLS server on the simulated clock; every response is judged when it is produced: a media playlist or segment is served (200 with a body) only if the request carries, in the cookie or the query, a secret the server handed out for that path to that address, or the configured CDN bearer; a session is created only for credentials that the reference user table allows to read the path from that address",
+		LevelNote: "trusted: the reference user table (worlds/w5/zz_model.go) and the harness's bookkeeping of handed-out secrets; whether an expired or kicked session is still served is not judged (the statement does not say); low-latency HLS and TLS are not exercised"})
 	reg(&propDef{ID: "C12", World: "w2", Chunk: 40, Level: "exploration", Quick: 1500, Thorough: 200000, QuickS: 90, ThorS: 1500,
 		Rule:      "1-3 concurrent API clients x 4-12 operations (read, global patch, path-defaults patch, path add/patch/replace/delete on 3 names plus an invalid name; unique maxReaders/readTimeout values, valid and invalid payloads: queue size not a power of two, zero timeout, payload size above the limit, recordDeleteAfter below the segment duration) x 0-100 ms gaps x seeded schedule; non-trivial = at least one edit was accepted; distinct = distinct (clients/edits/accepted, event-log hash)",
 		Real:      []string{"internal/core.Core: New, run, reloadConf, closeResources, createResources, doAPIConfig*, APIConfig* (instrumented)", "internal/conf: JSON decoding of the request bodies, Patch*/AddPath/ReplacePath/RemovePath/Validate, Clone", "internal/core path manager, internal/confwatcher, internal/recordcleaner, internal/auth (instrumented)"},
@@ -170,6 +176,8 @@ func init() {
 	props["C40"].Quick, props["C40"].Thorough = 1500, 100000
 	props["C40"].QuickS, props["C40"].ThorS = 150, 1800
 	props["C40"].Also = []string{"w2", "w3"}
+	props["C03"].Also = []string{"w5"}
+	props["C03"].Real = append(props["C03"].Real, "40% of the runs: world w5 (real HLS server: the session code that turns an HTTP request into a reader of a path, judged against the recorded decisions of the authentication manager)")
 	props["C40"].Real = append(props["C40"].Real, "20% of the runs each: world w2 (real Core with concurrent API configuration edits and reads, path manager, configuration watcher, record cleaner) and world w3 (recorder, playback list/get handlers with their parsing goroutines, record store), both built with the race detector")
 	props["C40"].LevelNote += "; metrics scrapes over HTTP and real session kick paths are outside (front-ends are stubs); data races are those the Go race detector reports under the explored schedules"
 }
